@@ -2037,7 +2037,7 @@ As a workaround use x.as_expr() %s y.as_expr()""" % op)
             warn('Magnitude of expression with Dirac delta may be invalid: ', self)
 
         if self.is_real:
-            dst = expr(abs(self.sympy))
+            dst = self.__class__(abs(self.sympy), **self.assumptions)
             dst.part = 'magnitude'
             return dst
 
